@@ -251,14 +251,16 @@ class World:
             return spec, (spec["e"] if spec["k"] == "x" else None), spec["d"]
         return {"k": "x", "e": "timeout", "v": 0, "d": 0}, "timeout", timeout_ms
 
-    def begin(self, ns, request, timeout, tcp):
+    def begin(self, ns, request, timeout, tcp, source=None, source_port=0):
         if sum(1 for e in self.events if e["ev"] == "q") >= QUERY_LIMIT:
             raise Runaway(f"{QUERY_LIMIT} queries in one resolution")
         to = to_ms(timeout)
         spec, tag, dur = self.next_step(ns, request, to, tcp)
         q = request.question[0]
-        ev = {"ev": "q", "cand": hexl(q.name.labels), "sid": ns.sid, "tcp": bool(tcp), "to": to, "t0": self.clock.ms,
-              "spec": spec, "dur": dur, "qty": int(q.rdtype), "qcls": int(q.rdclass), "pos": self.pos - 1}
+        sid = ns.sid if hasattr(ns, "sid") else addr_sid(ns.address)
+        ev = {"ev": "q", "cand": hexl(q.name.labels), "sid": sid, "tcp": bool(tcp), "to": to, "t0": self.clock.ms,
+              "spec": spec, "dur": dur, "qty": int(q.rdtype), "qcls": int(q.rdclass), "pos": self.pos - 1,
+              "src": source, "sport": source_port, "port": ns.answer_port(), "nsstr": str(ns)}
         self.events.append(ev)
         return spec, tag, dur, ev
 
@@ -273,6 +275,38 @@ class World:
         self.tokens[ev["pos"]] = f"r:{spec['d']}:{rc}:{qr}:{len(m.question)}:{an}:{au}"
         ev["resp"] = {"rcode": rc, "qr": qr == "1", "qc": len(m.question), "msg": m}
         return m
+
+
+def addr_sid(address):
+    """nameserver id of an address `10.0.0.<id+1>` (string-nameserver route)"""
+    return int(str(address).rsplit(".", 1)[1]) - 1
+
+
+def sid_addr(sid):
+    return f"10.0.0.{sid + 1}"
+
+
+def ns_port(sid):
+    return 5300 + sid
+
+
+CURRENT_WORLD = None  # world serving the patched Do53Nameserver methods (string-nameserver route)
+
+
+def _do53_query(self, request, timeout, source, source_port, max_size, one_rr_per_rrset=False, ignore_trailing=False):
+    w = CURRENT_WORLD
+    spec, tag, dur, ev = w.begin(self, request, timeout, max_size, source, source_port)
+    w.clock.advance(dur)
+    return w.finish(request, spec, tag, ev)
+
+
+async def _do53_async_query(self, request, timeout, source, source_port, max_size, backend, one_rr_per_rrset=False,
+                            ignore_trailing=False):
+    w = CURRENT_WORLD
+    spec, tag, dur, ev = w.begin(self, request, timeout, max_size, source, source_port)
+    if dur > 0:
+        await asyncio.sleep(dur / 1000.0)
+    return w.finish(request, spec, tag, ev)
 
 
 class ScriptedNS(dns.nameserver.Nameserver):
@@ -293,18 +327,18 @@ class ScriptedNS(dns.nameserver.Nameserver):
         return str(self.sid)
 
     def answer_port(self):
-        return 53
+        return ns_port(self.sid)
 
     def query(self, request, timeout, source, source_port, max_size, one_rr_per_rrset=False, ignore_trailing=False):
         w = self.world
-        spec, tag, dur, ev = w.begin(self, request, timeout, max_size)
+        spec, tag, dur, ev = w.begin(self, request, timeout, max_size, source, source_port)
         w.clock.advance(dur)
         return w.finish(request, spec, tag, ev)
 
     async def async_query(self, request, timeout, source, source_port, max_size, backend, one_rr_per_rrset=False,
                           ignore_trailing=False):
         w = self.world
-        spec, tag, dur, ev = w.begin(self, request, timeout, max_size)
+        spec, tag, dur, ev = w.begin(self, request, timeout, max_size, source, source_port)
         if dur > 0:
             await asyncio.sleep(dur / 1000.0)
         return w.finish(request, spec, tag, ev)
@@ -340,10 +374,17 @@ def seconds(ms):
 def configure(res, cfg, world):
     objs = {}
     servers = []
-    for sid, am in cfg["servers"]:
-        if sid not in objs:
-            objs[sid] = ScriptedNS(sid, bool(am), world)
-        servers.append(objs[sid])  # the same id twice = the same object listed twice
+    if cfg.get("route") == "str":
+        # nameservers given as address strings: `_enrich_nameservers` makes Do53Nameserver objects (anew for every
+        # candidate) whose query methods are patched to the scripted world; ports come from nameserver_ports / port
+        servers = [sid_addr(sid) for sid, _ in cfg["servers"]]
+        res.port = ns_port(cfg["servers"][0][0]) if cfg["servers"] else 53
+        res.nameserver_ports = {sid_addr(sid): ns_port(sid) for sid, _ in cfg["servers"][1:]}
+    else:
+        for sid, am in cfg["servers"]:
+            if sid not in objs:
+                objs[sid] = ScriptedNS(sid, bool(am), world)
+            servers.append(objs[sid])  # the same id twice = the same object listed twice
     res.nameservers = servers
     res.search = [dns.name.Name(unhexl(s)) for s in cfg["search"]]
     res.domain = None if cfg["domain"] is None else dns.name.Name(unhexl(cfg["domain"]))
@@ -392,15 +433,16 @@ def result_of(fn):
     except dns.resolver.NXDOMAIN as e:
         qn = [hexl(n.labels) for n in e.qnames()]
         rs = [hexl(n.labels) for n in e.responses().keys()]
-        return (f"NXDOMAIN:{enc_list(encn(n) for n in qn)}:{enc_list(encn(n) for n in rs)}", {"cls": "NXDOMAIN", "qnames": qn, "responses": rs})
-    except dns.resolver.NoAnswer:
-        return "NoAnswer", {"cls": "NoAnswer"}
+        return (f"NXDOMAIN:{enc_list(encn(n) for n in qn)}:{enc_list(encn(n) for n in rs)}",
+                {"cls": "NXDOMAIN", "qnames": qn, "responses": rs, "msgs": list(e.responses().values())})
+    except dns.resolver.NoAnswer as e:
+        return "NoAnswer", {"cls": "NoAnswer", "msg": e.kwargs.get("response")}
     except dns.resolver.YXDOMAIN:
         return "YXDOMAIN", {"cls": "YXDOMAIN"}
-    except dns.resolver.NoNameservers:
-        return "NoNameservers", {"cls": "NoNameservers"}
-    except dns.resolver.LifetimeTimeout:
-        return "LifetimeTimeout", {"cls": "LifetimeTimeout"}
+    except dns.resolver.NoNameservers as e:
+        return "NoNameservers", {"cls": "NoNameservers", "errors": list(e.kwargs.get("errors", [])), "request": e.kwargs.get("request")}
+    except dns.resolver.LifetimeTimeout as e:
+        return "LifetimeTimeout", {"cls": "LifetimeTimeout", "errors": list(e.kwargs.get("errors", [])), "elapsed": e.kwargs.get("timeout")}
     except dns.resolver.NoMetaqueries:
         return "NoMetaqueries", {"cls": "NoMetaqueries"}
     except (dns.name.NameTooLong, dns.name.LabelTooLong, dns.name.EmptyLabel, dns.name.AbsoluteConcatenation) as e:
@@ -410,10 +452,14 @@ def result_of(fn):
     hasrr = a.rrset is not None
     s = {"cls": "Answer", "qname": hexl(a.qname.labels), "ty": int(a.rdtype), "rdcls": int(a.rdclass),
          "canon": hexl(a.canonical_name.labels), "hasrr": hasrr, "minttl": int(a.chaining_result.minimum_ttl),
-         "exp": to_ms(a.expiration), "server": a.nameserver, "obj": a,
+         "exp": to_ms(a.expiration), "server": a.nameserver, "obj": a, "port": a.port, "msg": a.response,
          "rrname": hexl(a.rrset.name.labels) if hasrr else None, "rrttl": int(a.rrset.ttl) if hasrr else None}
+    srv = a.nameserver
+    if srv is not None and "." in str(srv):
+        srv = addr_sid(srv)  # string-nameserver route: the answer names the address
+        s["server"] = str(srv)
     line = (f"ans:{encn(s['qname'])}:{s['ty']}:{s['rdcls']}:{encn(s['canon'])}:{b01(hasrr)}:{s['minttl']}:{s['exp']}:"
-            f"{'none' if a.nameserver is None else a.nameserver}")
+            f"{'none' if srv is None else srv}")
     return line, s
 
 
@@ -433,6 +479,33 @@ def run_impl(case, mode, gen=None):
     if mode == "async":
         loop = get_loop()
         loop.vclock = clock
+    global CURRENT_WORLD
+    CURRENT_WORLD = world
+    saved_do53 = (dns.nameserver.Do53Nameserver.query, dns.nameserver.Do53Nameserver.async_query)
+    if cfg.get("route") == "str":
+        dns.nameserver.Do53Nameserver.query = _do53_query
+        dns.nameserver.Do53Nameserver.async_query = _do53_async_query
+    try:
+        return _run_impl(case, mode, clock, world, loop if mode == "async" else None)
+    finally:
+        dns.nameserver.Do53Nameserver.query, dns.nameserver.Do53Nameserver.async_query = saved_do53
+        CURRENT_WORLD = None
+
+
+def aux_of(o):
+    """observables outside the model that sync and async must still agree on: transport parameters of every query,
+    the answer's port, the error trace and payloads of the exception"""
+    r = o["result"]
+    errs = [(e[0], bool(e[1]), e[2], type(e[3]).__name__ if not isinstance(e[3], str) else "rcode:" + e[3], e[4] is not None)
+            for e in r.get("errors", [])]
+    return json.dumps([[(e.get("src"), e.get("sport"), e.get("port"), e.get("nsstr")) for e in o["events"] if e["ev"] == "q"],
+                       r.get("port"), errs, len(r.get("msgs", [])), r.get("msg") is not None], default=str)
+
+
+def _run_impl(case, mode, clock, world, loop):
+    cfg = case["cfg"]
+    obs = []
+    lines = []
     with patched(clock, dns.resolver, dns.asyncresolver):
         res = dns.resolver.Resolver(configure=False) if mode == "sync" else dns.asyncresolver.Resolver(configure=False)
         configure(res, cfg, world)
@@ -446,6 +519,15 @@ def run_impl(case, mode, gen=None):
             kw = dict(rdtype=rq["ty"], rdclass=rq["cls"], tcp=bool(rq["tcp"]), raise_on_no_answer=bool(rq["rona"]),
                       lifetime=None if rq["life"] is None else seconds(rq["life"]),
                       search=None if rq["search"] is None else bool(rq["search"]))
+            if rq.get("src") is not None:
+                kw["source"] = rq["src"]
+            if rq.get("sport"):
+                kw["source_port"] = rq["sport"]
+            if rq.get("text"):
+                # text route: the name, type and class as strings (`from_text(qname, None)`, `RdataType.make`)
+                qname = qname.to_text()
+                kw["rdtype"] = dns.rdatatype.to_text(rq["ty"])
+                kw["rdclass"] = dns.rdataclass.to_text(rq["cls"])
             if mode == "sync":
                 line, r = result_of(lambda: res.resolve(qname, **kw))
             else:
@@ -641,6 +723,15 @@ def oracle(ctx, case, obs, rep):
             continue
         lcands = [lower_labels(c) for c in cands]
 
+        # ---- every query carries the caller's source address/port and goes to the port configured for that server
+        for e in queries:
+            want_str = f"Do53:{sid_addr(e['sid'])}@{ns_port(e['sid'])}" if cfg.get("route") == "str" else f"scripted:{e['sid']}"
+            if e.get("src") != rq.get("src") or (e.get("sport") or 0) != (rq.get("sport") or 0):
+                fail("transport/source", f"{where}: query sent with source={e.get('src')!r} port={e.get('sport')!r}, caller gave {rq.get('src')!r}/{rq.get('sport', 0)!r}")
+                break
+            if e.get("port") != ns_port(e["sid"]) or e.get("nsstr") != want_str:
+                fail("transport/nameserver-port", f"{where}: server {e['sid']} addressed as {e.get('nsstr')} port {e.get('port')}, configured {want_str}")
+                break
         # ---- lifetime: every query starts inside the lifetime with a timeout inside the remaining budget
         for e in queries:
             el = e["t0"] - start
@@ -679,6 +770,8 @@ def oracle(ctx, case, obs, rep):
         nx_names = []
         finished = None  # expected terminal class decided by the walk
         detail = None
+        seg = []  # query events of the candidate being walked (the error trace of an exception covers exactly these)
+        nx_msgs = {}  # candidate -> the NXDOMAIN response that is its evidence
         ok = True
         for ci, cand in enumerate(cands):
             lc = lower_labels(cand)
@@ -687,14 +780,18 @@ def oracle(ctx, case, obs, rep):
                 if hit is not None and hit[0] > tnow:
                     finished = "NoAnswer" if (not hit[1] and rq["rona"]) else "CacheHit"
                     detail = hit
+                    seg = []
                     break
                 nxe = cache.get((lc, ANY, rq["cls"]))
                 if nxe is not None and nxe[0] > tnow and nxe[2] == NXDOMAIN:
                     nx_names.append(lc)
+                    if nxe[3] is not None:
+                        nx_msgs[lc] = nxe[3].response
                     ctx.count("branch.cached-nxdomain")
                     continue
             # queries of this candidate: up to and including the first terminal outcome
             broken = set()
+            seg = []
             alive = list(server_ids)
             round_q = list(server_ids)
             backoff = 100
@@ -729,6 +826,7 @@ def oracle(ctx, case, obs, rep):
                     break
                 qi += 1
                 e = nxt
+                seg.append(e)
                 tnow = e["t0"] + e["dur"]
                 if lower_labels(unhexl(e["cand"])) != lc or e["qty"] != rq["ty"] or e["qcls"] != rq["cls"]:
                     fail("search-ndots/candidate-order", f"{where}: query for {e['cand']} where candidate {ci} {hexl(cand)} was due")
@@ -785,6 +883,7 @@ def oracle(ctx, case, obs, rep):
                     break
                 elif c[0] == "nx":
                     nx_names.append(lc)
+                    nx_msgs[lc] = e["resp"]["msg"]
                     if cache_on:
                         cache[(lc, ANY, rq["cls"])] = (e["t0"] + e["dur"] + 1000 * c[1][3], False, NXDOMAIN, None)
                     break  # next candidate
@@ -807,6 +906,42 @@ def oracle(ctx, case, obs, rep):
             else:
                 fail("classification", f"{where}: expected {exp_cls}")
             continue
+        # ---- the exception / answer objects: error trace, ports, response payloads
+        if cls in ("NoNameservers", "LifetimeTimeout"):
+            want = []
+            for e in seg:
+                c = classify(e, cfg)
+                base = (e["nsstr"], e["tcp"], ns_port(e["sid"]))
+                if e["tag"] in EXC_POOL:
+                    pool = EXC_POOL[e["tag"]]
+                    want.append(base + (type(pool[e["spec"].get("v", 0) % len(pool)]()).__name__, False))
+                elif c[0] == "broken" and e["resp"]["rcode"] in (NOERROR, NXDOMAIN):
+                    want.append(base + (ref_chain(e["resp"]["msg"], unhexl(e["cand"]), e["qcls"], e["qty"])[1], True))
+                elif c[0] in ("broken", "soft"):
+                    want.append(base + ("rcode:" + dns.rcode.to_text(e["resp"]["rcode"]), True))
+                elif c[0] == "yx":
+                    want.append(base + ("YXDOMAIN", True))
+            got = [(x[0], bool(x[1]), x[2], type(x[3]).__name__ if not isinstance(x[3], str) else "rcode:" + x[3], x[4] is not None)
+                   for x in res["errors"]]
+            if got != want:
+                fail("errors-trace", f"{where}: the exception lists {got[:6]}, the failed queries of the last candidate were {want[:6]}")
+            else:
+                msgs = [e["resp"]["msg"] for e in seg if "resp" in e and classify(e, cfg)[0] not in ("accept", "nx")]
+                if [x[4] for x in res["errors"] if x[4] is not None] != msgs and not all(a is b for a, b in zip([x[4] for x in res["errors"] if x[4] is not None], msgs)):
+                    fail("errors-trace/response", f"{where}: an error entry carries another response than the one received")
+            if cls == "LifetimeTimeout" and res.get("elapsed") is not None and to_ms(res["elapsed"]) != end - start:
+                fail("errors-trace/elapsed", f"{where}: LifetimeTimeout reports {to_ms(res['elapsed'])} ms elapsed, the clock says {end - start}")
+        if cls == "NoAnswer":
+            want_msg = detail[3].response if (finished == "NoAnswer" and isinstance(detail, tuple) and len(detail) == 4 and detail[3] is not None) else (
+                detail[0]["resp"]["msg"] if (isinstance(detail, tuple) and len(detail) == 2) else None)
+            if want_msg is not None and res.get("msg") is not want_msg:
+                fail("payload/noanswer-response", f"{where}: NoAnswer does not carry the response that had no answer")
+        if cls == "NXDOMAIN":
+            for n, m in zip(res["responses"], res["msgs"]):
+                w = nx_msgs.get(lower_labels(unhexl(n)))
+                if w is not None and m is not w:
+                    fail("payload/nxdomain-response", f"{where}: NXDOMAIN.responses[{n}] is not the NXDOMAIN response received for that name")
+                    break
         if cls == "NXDOMAIN":
             if [lower_labels(unhexl(n)) for n in res["qnames"]] != lcands:
                 fail("nxdomain-only-if-all/qnames", f"{where}: qnames differ from the candidate list")
@@ -822,6 +957,8 @@ def oracle(ctx, case, obs, rep):
             else:
                 e, ch = detail
                 exp = e["t0"] + e["dur"] + 1000 * ch[3]
+                if res.get("port") != ns_port(e["sid"]) or res.get("msg") is not e["resp"]["msg"]:
+                    fail("first-acceptable-answer/port-or-response", f"{where}: answer carries port {res.get('port')} (server {e['sid']} is on {ns_port(e['sid'])}) or another response")
                 if (lower_labels(unhexl(res["qname"])) != lower_labels(unhexl(e["cand"])) or res["ty"] != rq["ty"] or res["rdcls"] != rq["cls"]
                         or str(res["server"]) != str(e["sid"])):
                     fail("first-acceptable-answer/fields", f"{where}: answer labelled {res['qname']}/{res['ty']}/{res['rdcls']} from {res['server']}")
@@ -860,9 +997,45 @@ def eval_case(ctx: Ctx, c: dict, gen=None):
         aline, aobs, _ = run_impl(c, "async", None)
         if aline != line:
             ctx.fail("C16/async/decision-differs", f"sync: {line}  async: {aline}", rep)
+        else:
+            for i, (o1, o2) in enumerate(zip(obs, aobs)):
+                if aux_of(o1) != aux_of(o2):
+                    ctx.fail("C16/async/transport-or-payload-differs",
+                             f"resolution {i}: sync {aux_of(o1)[:300]}  async {aux_of(o2)[:300]}", rep)
+                    break
         ctx.count("run.resolutions", len(obs))
         ctx.count("run.queries", sum(1 for o in obs for e in o["events"] if e["ev"] == "q"))
         return sum(len(o["events"]) for o in obs) > 0 or any(o["result"]["cls"] in ("Answer", "NoAnswer", "NXDOMAIN") for o in obs)
+    if k == "timeout":
+        # `_compute_timeout` on its own, on a clock that may also have run backwards since `start`
+        clock = VClock(c["now"])
+        from fractions import Fraction
+        with patched(clock, dns.resolver):
+            res = dns.resolver.Resolver(configure=False)
+            res.lifetime = seconds(c["life_res"])
+            res.timeout = seconds(c["timeout"])
+            try:
+                t = res._compute_timeout(Fraction(c["start"], 1000), None if c["life_arg"] is None else seconds(c["life_arg"]), None)
+                impl = f"ok {to_ms(t)}"
+            except dns.resolver.LifetimeTimeout as e:
+                impl = "LifetimeTimeout"
+                if to_ms(e.kwargs.get("timeout", 0)) != c["now"] - c["start"]:
+                    ctx.fail("C16/timeout/reported-elapsed", f"LifetimeTimeout reports {e.kwargs.get('timeout')} s elapsed, the clock moved {c['now'] - c['start']} ms since start", rep)
+            except BaseException as e:
+                impl = "FOREIGN " + type(e).__name__
+                ctx.fail("C16/timeout/foreign-exception:" + type(e).__name__, impl, rep)
+        life = c["life_res"] if c["life_arg"] is None else c["life_arg"]
+        ctx.corr(f"c16.timeout {life} {c['timeout']} {c['start']} {c['now']}", impl, c)
+        d = c["now"] - c["start"]
+        if d < -1000:
+            want = "LifetimeTimeout"
+        else:
+            d = max(d, 0)
+            want = "LifetimeTimeout" if d >= life else f"ok {min(life - d, c['timeout'])}"
+        ctx.count("timeout." + ("back" if c["now"] < c["start"] else "fwd") + "." + want.split(" ")[0])
+        if impl != want and not impl.startswith("FOREIGN"):
+            ctx.fail("C16/timeout/budget", f"_compute_timeout(start={c['start']} ms, lifetime={life} ms, timeout={c['timeout']} ms) at {c['now']} ms -> {impl}, documented {want}", rep)
+        return True
     if k == "qnames":
         cfg = c["cfg"]
         res = dns.resolver.Resolver(configure=False)
@@ -959,9 +1132,18 @@ def gen_cfg(rng):
     if rng.chance(1, 25):
         search.append([b"s" * 63, b"t" * 63, b"u" * 63, b""])
     domain = rng.choice([None, [b""], [b"dom", b""], [b"example", b""]])
-    return {"servers": servers, "search": [hexl(s) for s in search], "domain": None if domain is None else hexl(domain),
-            "ndots": rng.choice([None, None, 0, 1, 2, 3]), "usd": rng.below(2), "timeout": rng.choice(TIMEOUTS),
-            "lifetime": rng.choice(LIFETIMES), "rsf": rng.below(2), "cache": rng.choice([0, 1, 1, 1, 2])}
+    cfg = {"servers": servers, "search": [hexl(s) for s in search], "domain": None if domain is None else hexl(domain),
+           "ndots": rng.choice([None, None, 0, 1, 2, 3]), "usd": rng.below(2), "timeout": rng.choice(TIMEOUTS),
+           "lifetime": rng.choice(LIFETIMES), "rsf": rng.below(2), "cache": rng.choice([0, 1, 1, 1, 2])}
+    if rng.chance(1, 40):
+        cfg["timeout"] = 0  # falsy option value
+    if rng.chance(1, 40):
+        cfg["lifetime"] = 0
+    if rng.chance(1, 6):
+        # object route: nameservers given as address strings (enriched to Do53Nameserver for every candidate)
+        cfg["route"] = "str"
+        cfg["servers"] = [[i, 0] for i in range(ns)]
+    return cfg
 
 
 def gen_req(rng, first):
@@ -971,9 +1153,16 @@ def gen_req(rng, first):
         ty = rng.choice([ANY, 41, 250, 128])
     if rng.chance(1, 80):
         cls = rng.choice([254, 255])
-    return {"qname": hexl(gen_qname(rng)), "ty": ty, "cls": cls, "tcp": 1 if rng.chance(1, 6) else 0, "rona": 0 if rng.chance(1, 4) else 1,
-            "search": rng.choice([None, 0, 1, 1, 1]), "life": rng.choice([None, None, None] + LIFETIMES),
-            "gap": 0 if first else rng.choice([0, 0, 1, 1000, 4999, 5000, 5001, 30000, 60000, 301000, 10 ** 7])}
+    rq = {"qname": hexl(gen_qname(rng)), "ty": ty, "cls": cls, "tcp": 1 if rng.chance(1, 6) else 0, "rona": 0 if rng.chance(1, 4) else 1,
+          "search": rng.choice([None, 0, 1, 1, 1]), "life": rng.choice([None, None, None] + LIFETIMES + [0]),
+          "gap": 0 if first else rng.choice([0, 0, 1, 1000, 4999, 5000, 5001, 30000, 60000, 301000, 10 ** 7])}
+    if rng.chance(1, 4):
+        rq["src"] = rng.choice(["192.0.2.7", "2001:db8::7"])
+    if rng.chance(1, 4):
+        rq["sport"] = rng.choice([1, 5353, 65535])
+    if rng.chance(1, 4):
+        rq["text"] = 1  # name, type and class handed over as text
+    return rq
 
 
 def rr(owner, cls, ty, ttl, target=None):
@@ -1009,7 +1198,11 @@ def gen_answer_section(rng, q, cls, ty, shape):
                 links.append(rr(names[n], cls, CNAME, ttl(), names[0]))
             elif shape in ("chain", "longchain"):
                 links.append(rr(swap(names[n]), cls, ty, ttl()))
-            if rng.chance(1, 3):
+            if rng.chance(1, 5) and n >= 1:
+                # a CNAME RRset with two records: only the first one is followed
+                i = rng.below(n)
+                links.insert(i + 1, rr(names[i], cls, CNAME, ttl(), [b"dead", b"end", b""]))
+            elif rng.chance(1, 3):
                 links = rng.shuffle(links)
             an += links
     if rng.chance(1, 2) and shape in ("nodata", "chain-nodata", "nx"):
@@ -1020,6 +1213,8 @@ def gen_answer_section(rng, q, cls, ty, shape):
         au.append([hexl(swap(base[k:]) if base[k:] else [b""]), cls, ttl(), ttl()])
         if rng.chance(1, 4):
             au.append([hexl([b""]), cls, ttl(), ttl()])
+    if rng.chance(1, 8) and shape in ("nodata", "chain-nodata", "nx"):
+        au.insert(0, [hexl(list(q)), IN if cls == CH else CH, 0, 0])  # an SOA of another class must not count
     return an, au
 
 
@@ -1087,7 +1282,17 @@ def gen_run(ctx, rng):
                 r["qname"], r["ty"], r["cls"] = reqs[0]["qname"], reqs[0]["ty"], reqs[0]["cls"]
                 if rng.chance(1, 4):
                     r["qname"] = hexl([bytes(l).swapcase() for l in unhexl(r["qname"])])
+    if nreq == 3 and rng.chance(1, 3):
+        # the same name asked for type X, then type Y, then X again: a positive entry and an NXDOMAIN entry may both be live
+        tys = rng.shuffle([A, TXT, AAAA, MX])[:2]
+        for r, ty in zip(reqs, [tys[0], tys[1], tys[0]]):
+            r["qname"], r["cls"], r["ty"] = reqs[0]["qname"], IN, ty
+        for r in reqs[1:]:
+            r["gap"] = rng.choice([0, 1, 1000, 5000])
+        cfg["cache"] = rng.choice([1, 2])
     profile = rng.choice(["mixed", "mixed", "mixed", "failing", "failing", "stalling", "stalling", "nx", "nx", "good"])
+    if nreq == 3 and rng.chance(1, 2):
+        profile = rng.choice(["good", "nx", "mixed"])
     case = {"kind": "run", "cfg": cfg, "reqs": reqs, "script": [], "profile": profile}
 
     def gen(world, ns, request, timeout_ms, tcp):
@@ -1128,6 +1333,16 @@ def gen_chain_case(rng):
     return {"kind": "chain", "qname": hexl(absq), "cls": cls, "ty": ty, "resp": spec}
 
 
+def gen_timeout_case(rng):
+    life_res = rng.choice(LIFETIMES + [0])
+    life_arg = rng.choice([None, None] + LIFETIMES + [0])
+    life = life_res if life_arg is None else life_arg
+    start = rng.choice([0, 1000, 5000, 10 ** 6])
+    delta = rng.choice([0, 1, life - 1, life, life + 1, life // 2, -1, -999, -1000, -1001, -125, -5000, 10 ** 6, rng.below(9000)])
+    return {"kind": "timeout", "life_res": life_res, "life_arg": life_arg, "timeout": rng.choice(TIMEOUTS + [0]), "start": start,
+            "now": start + delta}
+
+
 def case_key(c):
     return json.dumps(c, sort_keys=True)
 
@@ -1142,6 +1357,10 @@ def generate(ctx: Ctx, scale: float, rng):
     for _ in range(n(1500)):
         c = gen_qnames_case(rng)
         ctx.case(("qnames", case_key(c)), sample=c)
+        eval_case(ctx, c)
+    for _ in range(n(600)):
+        c = gen_timeout_case(rng)
+        ctx.case(("timeout", case_key(c)), sample=c)
         eval_case(ctx, c)
     for _ in range(n(1500)):
         c = gen_chain_case(rng)
